@@ -8,7 +8,7 @@ use std::rc::Rc;
 
 pub static PROP: Prop = Prop {
     id: "C13",
-    rule: "Pipelines = source x adaptor chain x consumer, run 25 per script (zip / chain also with pair-emitting arguments: a map, an enumerate adaptor; consumers include four peekable interleavings of peek / peek_back with forward and backward consumption). Sources: list, tuple, exclusive / inclusive / descending range, exclusive / inclusive range with bounds beyond 32 bits, ASCII string, map, and generators (looping over a range, over a list, and over an adaptor chain) that print `p<i>` on every pull, each of length 0..5 (exhaustive). Adaptors (numeric parameters 0..3): each, keep, skip, take, take_while, step, chain, zip, enumerate, chunks, windows, flatten, intersperse, cycle (always under a later take), reversed, iter. Consumers: to_list, to_tuple, count, sum, product, min, max, min_max, fold, find, position, any, all, last, consume, a for loop, 3-target unpacking, and next/next_back call sequences. All chains of depth <= 2 are enumerated (quick: x every source x a consumer rotated per pipeline; thorough: x every consumer, plus depth 3 over a reduced source set); deeper chains are proptest-sampled. Oracle: (1) the printed result equals a sequence model written in plain Rust on vectors from the core-library docs (errors for chunks/windows/step 0 and reversed on a non-bidirectional chain); (2) laziness: nothing is pulled before the pipeline is consumed, pulls are p0, p1, ... each once and in order, and the number of pulls is at most the model's minimal demand plus the declared look-ahead of the chain; (3) reversed over a bidirectional chain is the forward output backwards; (4) a copy taken after k pulls advances independently of the original. Zip / chain arguments include pair-emitting iterables (map, enumerate); peekable consumers interleave peek / peek_back with forward and backward consumption. Non-trivial: chain depth >= 2, reuse of an exhausted iterator, or a mixed-direction call sequence.",
+    rule: "Pipelines = source x adaptor chain x consumer, run 25 per script (zip / chain also with pair-emitting arguments: a map, an enumerate adaptor; consumers include four peekable interleavings of peek / peek_back with forward and backward consumption). Sources: list, tuple, exclusive / inclusive / descending range, exclusive / inclusive range with bounds beyond 32 bits, ASCII string, a string of multi-character grapheme clusters that end in ASCII, map, and generators (looping over a range, over a list, and over an adaptor chain) that print `p<i>` on every pull, each of length 0..5 (exhaustive). Adaptors (numeric parameters 0..3): each, keep, skip, take, take_while, step, chain, zip, enumerate, chunks, windows, flatten, intersperse, cycle (always under a later take), reversed, iter. Consumers: to_list, to_tuple, count, sum, product, min, max, min_max, fold, find, position, any, all, last, consume, a for loop, 3-target unpacking, and next/next_back call sequences. All chains of depth <= 2 are enumerated (quick: x every source x a consumer rotated per pipeline; thorough: x every consumer, plus depth 3 over a reduced source set); deeper chains are proptest-sampled. Oracle: (1) the printed result equals a sequence model written in plain Rust on vectors from the core-library docs (errors for chunks/windows/step 0 and reversed on a non-bidirectional chain); (2) laziness: nothing is pulled before the pipeline is consumed, pulls are p0, p1, ... each once and in order, and the number of pulls is at most the model's minimal demand plus the declared look-ahead of the chain; (3) reversed over a bidirectional chain is the forward output backwards; (4) a copy taken after k pulls advances independently of the original. Zip / chain arguments include pair-emitting iterables (map, enumerate); peekable consumers interleave peek / peek_back with forward and backward consumption. Non-trivial: chain depth >= 2, reuse of an exhausted iterator, or a mixed-direction call sequence.",
     assumptions: &[
         "look-ahead allowance per adaptor: step k: k-1, intersperse / zip / chain / peekable: 1, windows n: n, chunks n: n",
         "error texts are not compared (only that an error is raised)",
@@ -67,9 +67,11 @@ pub enum SrcK {
     /// ranges whose bounds do not fit in 32 bits (a separate representation inside koto)
     RangeLarge,
     RangeLargeInc,
+    /// a string whose grapheme clusters are a Prepend character (U+0600) followed by an ASCII digit, and letters
+    StrCluster,
 }
-pub const SOURCES: [SrcK; 18] = [
-    SrcK::List, SrcK::Tuple, SrcK::Range, SrcK::RangeInc, SrcK::RangeDesc, SrcK::Str, SrcK::Map, SrcK::Gen, SrcK::StrChars, SrcK::StrBytes, SrcK::StrSplit, SrcK::StrLines, SrcK::ObjNext, SrcK::ObjIterator, SrcK::GenList, SrcK::GenPipe, SrcK::RangeLarge, SrcK::RangeLargeInc,
+pub const SOURCES: [SrcK; 19] = [
+    SrcK::List, SrcK::Tuple, SrcK::Range, SrcK::RangeInc, SrcK::RangeDesc, SrcK::Str, SrcK::Map, SrcK::Gen, SrcK::StrChars, SrcK::StrBytes, SrcK::StrSplit, SrcK::StrLines, SrcK::ObjNext, SrcK::ObjIterator, SrcK::GenList, SrcK::GenPipe, SrcK::RangeLarge, SrcK::RangeLargeInc, SrcK::StrCluster,
 ];
 
 #[derive(Clone, Copy, Debug, PartialEq, Eq, Serialize, Deserialize)]
@@ -153,6 +155,8 @@ pub struct Pipe {
     pub cons: Cons,
 }
 
+const STR_CLUSTERS: [&str; 5] = ["\u{600}1", "b", "\u{600}2", "d", "\u{600}3"];
+
 fn source_values(k: SrcK, len: u8) -> Vec<MV> {
     let n = len as i64;
     match k {
@@ -174,6 +178,7 @@ fn source_values(k: SrcK, len: u8) -> Vec<MV> {
         SrcK::RangeLargeInc => (0..=n).map(|i| MV::Int(3_000_000_000 + i)).collect(),
         SrcK::RangeDesc => vec![],
         SrcK::Str => "abcde".chars().take(len as usize).map(|c| MV::Str(c.to_string())).collect(),
+        SrcK::StrCluster => STR_CLUSTERS.iter().take(len as usize).map(|c| MV::Str(c.to_string())).collect(),
         SrcK::Map => "abcde".chars().take(len as usize).enumerate().map(|(i, c)| MV::Tup(vec![MV::Str(c.to_string()), MV::Int(i as i64 + 1)])).collect(),
     }
 }
@@ -193,6 +198,7 @@ fn source_text(k: SrcK, len: u8) -> String {
         SrcK::RangeLargeInc => format!("(3000000000..={})", 3_000_000_000i64 + n as i64),
         SrcK::RangeDesc => format!("({n}..0)"),
         SrcK::Str => format!("'{}'", &"abcde"[..n]),
+        SrcK::StrCluster => format!("'{}'", STR_CLUSTERS.iter().take(n).copied().collect::<String>()),
         SrcK::Map => format!("{{{}}}", "abcde".chars().take(n).enumerate().map(|(i, c)| format!("{c}: {}", i + 1)).collect::<Vec<_>>().join(", ")),
         SrcK::Gen => format!("gen({n})"),
         SrcK::GenList => format!("genl({n})"),
@@ -308,9 +314,14 @@ pub fn model_chain(src: SrcK, len: u8, chain: &[Ad]) -> Result<(Vec<MV>, bool), 
                     match x {
                         MV::Tup(t) | MV::List(t) => out.extend(t),
                         MV::Str(s) => {
-                            // strings are iterable: flatten yields their characters
-                            for c in s.chars() {
-                                out.push(MV::Str(c.to_string()));
+                            // strings are iterable: flatten yields their grapheme clusters (the clusters of the
+                            // source alphabets are single characters, or an element of STR_CLUSTERS)
+                            if STR_CLUSTERS.contains(&s.as_str()) {
+                                out.push(MV::Str(s));
+                            } else {
+                                for c in s.chars() {
+                                    out.push(MV::Str(c.to_string()));
+                                }
                             }
                         }
                         other => out.push(other),
